@@ -68,7 +68,11 @@ EXTRA3 = [
     (('B', 'A'), ('A', 'B'), ('B', 'C')),
     (('C', 'A'), ('A', 'C'), ('B',)),
     (('A', 'B', 'C'), ('C', 'A', 'B')),
+    # exactly the same projection measured several times with explicit (dense / sparse) queries and different noise levels
+    (('A', 'B'), ('A', 'B')),
+    (('B', 'C'), ('A', 'B'), ('B', 'C'), ('B', 'C')),
 ]
+EXTRA3_KINDS = {4: (['dense', 'sparse', 'prefix'], [0.5, 4.0, 1.0]), 5: (['sparse', 'dense', 'dense', 'prefix'], [4.0, 1.0, 0.5, 1.0])}
 
 
 def problem_for(job):
@@ -78,6 +82,9 @@ def problem_for(job):
         attrs, sizes, struct = M.ATTRS3, M.SIZES3, M.structures(M.MENU3, 3)[job['si']]
     else:
         attrs, sizes, struct = M.ATTRS4, M.SIZES4, M.structures(M.MENU4, 3)[job['si']]
+    if job['dom'] == 3 and job['si'] - 1000 in EXTRA3_KINDS:
+        kinds, sigmas = EXTRA3_KINDS[job['si'] - 1000]
+        return attrs, sizes, struct, M.Problem(attrs, sizes, struct, 0, job['truth'], job['seed'], kinds=kinds, sigmas=sigmas)
     return attrs, sizes, struct, M.Problem(attrs, sizes, struct, job['si'], job['truth'], job['seed'])
 
 
